@@ -68,6 +68,9 @@ pub struct NetCfg {
     pub mtu: usize,
     /// unidirectional blackholes: (src node, dst node)
     pub partitions: BTreeSet<(u32, u32)>,
+    /// directed loss: ordinals (among datagrams put on the wire by endpoints) to drop
+    pub drop_ordinals: BTreeSet<u32>,
+    pub sent_ordinal: u32,
 }
 
 impl Default for NetCfg {
@@ -84,6 +87,8 @@ impl Default for NetCfg {
             bleach: false,
             mtu: 65_535,
             partitions: BTreeSet::new(),
+            drop_ordinals: BTreeSet::new(),
+            sent_ordinal: 0,
         }
     }
 }
@@ -468,6 +473,14 @@ impl World {
             if self.net.partitions.contains(&(d.origin_node, dn)) {
                 fate = Fate::Partitioned;
                 self.faults.hit("partition_drop");
+            }
+        }
+        if d.origin_node != NO_NODE {
+            let ord = self.net.sent_ordinal;
+            self.net.sent_ordinal += 1;
+            if fate == Fate::InFlight && self.net.drop_ordinals.contains(&ord) {
+                fate = Fate::Dropped;
+                self.faults.hit("directed_drop");
             }
         }
         let mut dup = 0;
